@@ -85,6 +85,8 @@ def build_layouts(layouts, e):
         elif how == "forbid":
             from adaptix import ExtraForbid  # noqa: PLC0415
             out.append(name_mapping(cls, extra_in=ExtraForbid()))
+        elif how.startswith("extra_in_field:"):
+            out.append(name_mapping(cls, extra_in=how.split(":", 1)[1]))   # unknown data is collected into a typed field
         elif how == "saturate":
             out.append(name_mapping(cls, extra_in=_saturator))   # unknown data is collected and handed to a function
         elif how == "kwargs":
@@ -403,7 +405,44 @@ def list_layout_table_cases():
                                "debug": mode // 2, "provs": [], "layouts": {"M0": "as_list"}}
 
 
+def extra_field_table_cases():
+    """Models that collect unknown keys into a TYPED field (extra_in='<field>'): the collected mapping goes through that field's
+    loader, which can fail (Dict[str, int] given a str value, a non-str key ...), at the root and one level down."""
+    for kind in ("dataclass", "attrs", "namedtuple"):
+        for extra_t in (["dict", ["str"], ["int"], "typing"], ["dict", ["str"], ["list", ["int"], "typing"], "typing"],
+                        ["mapping", ["str"], ["int"]]):
+            model = ["model", {"name": "M0", "kind": kind, "fields": [{"n": "a", "t": ["int"], "d": None},
+                                                                       {"n": "rest", "t": extra_t, "d": None}]}]
+            good_v = [1] if extra_t[2][0] == "list" else 1
+            data = {
+                "no_extra": [["a", 1]], "good_extra": [["a", 1], ["x", good_v]], "bad_extra_value": [["a", 1], ["x", "oops"]],
+                "bad_field_and_extra": [["a", "bad"], ["x", "oops"], ["y", None]], "nonstr_extra_key": [["a", 1], [5, good_v]],
+                "mixed_keys": [["a", 1], [5, good_v], ["x", "oops"], [None, good_v]], "missing_field": [["x", "oops"]],
+                "extra_named_like_target": [["a", 1], ["rest", "oops"]],
+            }
+            for label, pairs in data.items():
+                datum = {"$": "d", "v": pairs}
+                for wrap in ("root", "in_list", "first_union_case"):
+                    if wrap == "root":
+                        t, d = model, datum
+                    elif wrap == "in_list":
+                        t, d = ["list", model, "typing"], [datum]
+                    else:
+                        other = ["model", {"name": "M1", "kind": "dataclass", "fields": [{"n": "a", "t": ["int"], "d": None}]}]
+                        t, d = ["union", [model, other], "typing"], datum
+                    for mode in range(6):
+                        yield {"t": t, "datum": d, "ops": ["table", f"extra_field:{label}"], "strict": bool(mode % 2),
+                               "debug": mode // 2, "provs": [], "layouts": {"M0": "extra_in_field:rest"}}
+
+
 def explore(ctx: runner.Ctx):
+    n_ef = 0
+    for i, c in enumerate(extra_field_table_cases()):
+        n_ef += 1
+        if i % ctx.nshards == ctx.shard:
+            runner.guarded(ctx, lambda k: check_case(ctx, k), c)
+    ctx.mark_exhaustive(f"extra-field table: {n_ef} cases = models collecting unknown keys into a typed field x 8 inputs x (root, "
+                        f"list element, first case of a union) x 6 mode combinations")
     n_ll = 0
     for i, c in enumerate(list_layout_table_cases()):
         n_ll += 1
